@@ -9,6 +9,7 @@ from __future__ import annotations
 
 from typing import TYPE_CHECKING
 
+from exabgp.bgp.message.update.collection import validate_announce_nlri
 from exabgp.configuration.l2vpn.vpls import ParseVPLS
 from exabgp.configuration.schema import ActionTarget, ActionOperation, Container, RouteBuilder
 from exabgp.protocol.family import AFI, SAFI
@@ -67,4 +68,11 @@ class ParseL2VPN(ParseVPLS):
 def vpls(tokeniser: 'Tokeniser') -> list[Route]:
     """Build VPLS route using RouteBuilderValidator with ParseVPLS schema."""
     validator = RouteBuilderValidator(schema=ParseVPLS.schema)
-    return validator.validate(tokeniser)
+    routes: list[Route] = validator.validate(tokeniser)
+    # what the wire format generation would refuse (no nexthop) is refused here
+    if tokeniser.announce:
+        for route in routes:
+            error = validate_announce_nlri(route.nlri, route.nexthop)
+            if error:
+                raise ValueError(error)
+    return routes
